@@ -41,3 +41,58 @@ Proof.
   - intros y Hy. split; [apply disc_nonneg | apply q_neg]; assumption.
 Qed.
 Print Assumptions C19_rq_margins.
+
+(* ---- single precision as a third instance of the operation dictionary ([Fops32]: every arithmetic result rounded to the nearest
+   binary32 number, Flocq).  The regenerated affine formulas evaluated in it - what float32 computes - differ from their exact
+   values by single-precision accuracy scaled by the size of the terms, whenever no intermediate result is subnormal ---- *)
+From Coq Require Import Reals.
+From NF Require Import Base.Rops Gen.Norm Gen.Dist Proofs.Float32P.
+Theorem C19_actnorm_forward_float32_error : forall scale shift x : R,
+  (tiny32 <= Rabs (scale * x))%R -> (tiny32 <= Rabs (rnd32 (scale * x) + shift))%R ->
+  (Rabs (an_forward_out Fops32 scale shift x - an_forward_out Rops scale shift x)
+   <= u32 * (2 + u32) * Rabs (scale * x) + u32 * Rabs shift)%R.
+Proof. intros scale shift x H1 H2. exact (actnorm_forward_float32_error scale shift x H1 H2). Qed.
+Print Assumptions C19_actnorm_forward_float32_error.
+
+Theorem C19_actnorm_inverse_float32_error : forall scale shift y : R,
+  scale <> 0%R -> (tiny32 <= Rabs (y - shift))%R -> (tiny32 <= Rabs (rnd32 (y - shift) / scale))%R ->
+  (Rabs (an_inverse_out Fops32 scale shift y - an_inverse_out Rops scale shift y) <= u32 * (2 + u32) * Rabs ((y - shift) / scale))%R.
+Proof. intros scale shift y Hs H1 H2. exact (actnorm_inverse_float32_error scale shift y Hs H1 H2). Qed.
+Print Assumptions C19_actnorm_inverse_float32_error.
+
+Theorem C19_conditional_normal_sampler_float32_error : forall mean std noise : R,
+  (tiny32 <= Rabs (std * noise))%R -> (tiny32 <= Rabs (rnd32 (std * noise) + mean))%R ->
+  (Rabs (cdn_sample Fops32 mean std noise - cdn_sample Rops mean std noise)
+   <= u32 * (2 + u32) * Rabs (std * noise) + u32 * Rabs mean)%R.
+Proof. intros mean std noise H1 H2. exact (cdn_sample_float32_error mean std noise H1 H2). Qed.
+Print Assumptions C19_conditional_normal_sampler_float32_error.
+
+Example C19_float32_hypotheses_hold_for_ordinary_values :
+  (tiny32 <= Rabs (2 * 3) /\ tiny32 <= Rabs (rnd32 (2 * 3) + 1) /\ rnd32 (2 * 3) = 6 /\ u32 = / 16777216)%R.
+Proof. destruct float32_hypotheses_hold_for_ordinary_values as [A [B C]]. repeat split; try assumption. exact u32_val. Qed.
+
+From NF Require Import Gen.SplineRQ.
+Theorem C19_spline_denormalisation_float32_error : forall left right c : R,
+  (tiny32 <= Rabs (right - left))%R -> (tiny32 <= Rabs (rnd32 (right - left) * c))%R ->
+  (tiny32 <= Rabs (rnd32 (rnd32 (right - left) * c) + left))%R ->
+  (Rabs (rq_cumwidth_affine Fops32 left right c - rq_cumwidth_affine Rops left right c)
+   <= u32 * (3 + 3 * u32 + u32 * u32) * Rabs ((right - left) * c) + u32 * Rabs left)%R.
+Proof. intros left right c H0 H1 H2. exact (rq_denormalise_float32_error left right c H0 H1 H2). Qed.
+Print Assumptions C19_spline_denormalisation_float32_error.
+
+(* BatchNorm's evaluation-mode forward map, six rounded operations with a square root and a division among them, through a small
+   relative-error calculus over the same dictionary (Proofs/Float32Rel.v).  The square root is ANY function within 2u of the exact
+   one (every faithful rounding): torch's vectorised float32 square root is not always correctly rounded - the correspondence run
+   found such an input - so the correctly rounded entry of Fops32 would have been an idealisation here. *)
+From NF Require Import Proofs.Float32Rel.
+Theorem C19_batchnorm_forward_float32_error : forall (sq : R -> R) (w b eps x m v : R),
+  (forall a, 0 <= a -> Rabs (sq a - sqrt a) <= 2 * u32 * sqrt a)%R ->
+  (0 < v + eps)%R ->
+  (tiny32 <= Rabs (x - m))%R -> (tiny32 <= Rabs (v + eps))%R ->
+  (tiny32 <= Rabs (rnd32 (x - m) / sq (rnd32 (v + eps))))%R ->
+  (tiny32 <= Rabs (w * rnd32 (rnd32 (x - m) / sq (rnd32 (v + eps)))))%R ->
+  (tiny32 <= Rabs (rnd32 (w * rnd32 (rnd32 (x - m) / sq (rnd32 (v + eps)))) + b))%R ->
+  (Rabs (bn_forward_out (Fops32_sqrt sq) w b eps x m v - bn_forward_out Rops w b eps x m v)
+   <= 8 * u32 * (1 + u32) * Rabs (w * ((x - m) / sqrt (v + eps))) + u32 * (Rabs (w * ((x - m) / sqrt (v + eps))) + Rabs b))%R.
+Proof. intros sq w b eps x m v Hsq Hv N1 N2 N4 N5 N6. exact (bn_forward_float32_error sq w b eps x m v Hsq Hv N1 N2 N4 N5 N6). Qed.
+Print Assumptions C19_batchnorm_forward_float32_error.
